@@ -215,6 +215,8 @@ def aggregate(cid, mod, tier, seed, records, lost, wall, verbose=False):
             "library_functions_entered": sorted(reached),
             "known_findings_met": {k: len(v) for k, v in known_hits.items()},
             "max_logical_steps": max_steps,
+            "slowest_cases": [[r["index"], r.get("t"), r.get("stratum")] for r in sorted(records, key=lambda r: -r.get("t", 0))[:6]],
+            "cpu_s_cases": round(sum(r.get("t", 0) for r in records), 1),
             "exhaustive": bool(getattr(mod, "EXHAUSTIVE", False)),
             "repo": repo_dir(),
         },
